@@ -237,6 +237,11 @@ class FuncGen:
 
     def expr(self, t, d=0):
         rng, cfg = self.rng, self.cfg
+        if t in INT_TYPES and t not in cfg.int_types:
+            # a type that only lives in memory (e.g. 8/16 bit when arithmetic is restricted): leaf or cast
+            if rng.random() < 0.4:
+                return self.leaf(t)
+            return self.emit(ir.Cast(self.expr(rng.choice(cfg.int_types), d + 1), "cast", t))
         if d >= 3 or rng.random() < 0.3:
             return self.leaf(t)
         if t is ir.f64:
@@ -336,7 +341,7 @@ class FuncGen:
 
     def stmt(self, depth):
         rng, cfg = self.rng, self.cfg
-        kinds = ["assign"] * 5 + ["newvar"] * 2
+        kinds = ["assign"] * 5 + ["newvar"] * 2 + ["swap"] * (5 if self.loops else 1)
         if self.objs:
             kinds += ["store"] * 3 + ["load"] * 3
             if cfg.copyblob and len(self.objs) >= 2:
@@ -372,8 +377,32 @@ class FuncGen:
         n = self.rng.choice(names)
         self.vars[n] = self.expr(self.vty[n])
 
+    def s_swap(self, depth):
+        """a, b = b, a   /   a, b, c = b, c, a   /   a = b : no instruction is emitted, only the variable
+        map changes; inside a loop this makes the header phis read each other (parallel-copy problem)"""
+        rng = self.rng
+        by_ty = {}
+        for n in self.vars:
+            if not n.startswith("_"):
+                by_ty.setdefault(self.vty[n], []).append(n)
+        groups = [ns for ns in by_ty.values() if len(ns) >= 2]
+        if not groups:
+            return self.s_newvar(depth)
+        ns = rng.choice(groups)
+        k = rng.choice([2, 2, 3]) if len(ns) >= 3 else 2
+        pick = rng.sample(ns, k)
+        vals = [self.vars[n] for n in pick]
+        if rng.random() < 0.25:
+            self.vars[pick[0]] = vals[1]                      # plain copy
+        else:
+            for n, v in zip(pick, vals[1:] + vals[:1]):       # rotation
+                self.vars[n] = v
+
     def s_newvar(self, depth):
         t = self.any_type()
+        have = [self.vty[n] for n in self.vars if not n.startswith("_") and self.vty[n] is not ir.ptr]
+        if have and self.rng.random() < 0.5:
+            t = self.rng.choice(have)        # same-typed variables can be swapped / copied
         self.new_var(t, self.expr(t))
 
     def s_store(self, depth):
@@ -923,6 +952,7 @@ def c_modules(march="x86_64"):
     for name, src in C_SOURCES.items():
         m = api.c_to_ir(io.StringIO(src), march)
         m.name = "c_" + name
+        m.debug_db = None      # codepage's loader cannot map all C debug types; symbols are looked up by name instead
         fs = {f.name: f for f in m.functions}
         entries = []
         for fname, sig in C_ENTRIES[name]:
